@@ -1,5 +1,6 @@
 """The executor proper: expressions, statements, loops, calls, contracts."""
 import ast
+import os
 import re
 from fractions import Fraction
 
@@ -494,6 +495,10 @@ class Exec(BufMixin, FlatMixin):
             try:
                 m2 = load_module(rel, self.ctx.repo)
             except (FileNotFoundError, IsADirectoryError):
+                # `from ..package import submodule [as alias]`: a repo module value
+                sub = os.path.join(rel[:-3], nm + '.py')
+                if os.path.isfile(os.path.join(self.ctx.repo, sub)):
+                    return FunVal('module', nm, sub)
                 return FunVal('builtin', nm)
             if nm in m2.functions:
                 return FunVal('repo', nm, (rel, nm))
@@ -812,6 +817,13 @@ class Exec(BufMixin, FlatMixin):
                 return FunVal('method', a, (mod.relpath, qual, base))
             self.safety(st, fr, 'attribute_exists', False, e)
             raise OutOfReach('missing attribute %s.%s' % (cls, a))
+        if isinstance(base, FunVal) and base.kind == 'module':
+            m2 = load_module(base.ref, self.ctx.repo)
+            if a in m2.functions:
+                return FunVal('repo', a, (base.ref, a))
+            if a in m2.classes:
+                return FunVal('class', a, (base.ref, a))
+            raise OutOfReach('attribute %s of module %s' % (a, base.ref))
         if isinstance(base, FunVal) and base.kind == 'builtin':
             if a == 'pi' and base.name in ('np', 'numpy', 'math'):
                 return V.PI
